@@ -4,12 +4,13 @@ CONSTANTS
   DurKinds = {"ms20"}
   Drops = {0, 1}
   Sizes = {1}
-  MaxLen = 3
-  SeqOpts = {TRUE}
+  MaxLen = 7
+  SeqOpts = {TRUE, FALSE}
   TsOpts = {TRUE}
-  Rebinds = FALSE
-  Impl = "nodropdur"
+  Rebinds = TRUE
+  Impl = "rebindseq"
 INIT Init
 NEXT Next
+VIEW mcview
 INVARIANTS ModelSameTs ModelNoDrift ModelSeqPlusOne ModelDropSkips
 CHECK_DEADLOCK FALSE
